@@ -1,11 +1,11 @@
 package main
 
 import (
-	"strconv"
-	"os"
 	"fmt"
 	"go/token"
 	"go/types"
+	"os"
+	"strconv"
 	"strings"
 
 	"golang.org/x/tools/go/ssa"
@@ -111,6 +111,13 @@ func (fc *FnCtx) genBody(in *State, reachIn string) {
 			t := mergeVals(g, conds, vs, g.sortOf(phi.Type()))
 			phiEntry[phi] = t
 			fc.vals[phi] = Val{t: t, ty: phi.Type()}
+			// a variable merged at a join is known to contracts by its source name from here on
+			if phi.Comment != "" && phi.Comment != "rangeindex" && token.IsIdentifier(phi.Comment) {
+				if fc.debugNames == nil {
+					fc.debugNames = map[string]Val{}
+				}
+				fc.debugNames[phi.Comment] = Val{t: t, ty: phi.Type()}
+			}
 			// propagate closure identity / locs through trivial phis
 		}
 		if isHeader {
@@ -262,6 +269,7 @@ func (fc *FnCtx) loopHeader(h *ssa.BasicBlock, phiEntry map[*ssa.Phi]string) {
 	if ls != nil {
 		env := fc.envAt(preState, fc.headerVars(h, phiEntry))
 		env.visKey = fc.loopVisKey(h)
+		env.loopPre = preState
 		for i, inv := range ls.Invariants {
 			t := env.boolExpr(inv.Expr)
 			fc.oblige("inv-entry", fmt.Sprintf("L%d.%d", n, i+1), h.Instrs[0].Pos(), t, inv.Src, inv.Name)
@@ -282,7 +290,7 @@ func (fc *FnCtx) loopHeader(h *ssa.BasicBlock, phiEntry map[*ssa.Phi]string) {
 			g.assumeRaw(fmt.Sprintf("(<= %s %s)", old, g.get(st, "$alloc")))
 		}
 		for _, k := range g.keyOrder {
-			if mod(k) && g.keys[k].ref != "" && g.keys[k].kind != "stable" {
+			if mod(k) && g.keys[k].hasRef() && g.keys[k].kind != "stable" {
 				g.heapBound(k, g.get(st, k), g.get(st, "$alloc"))
 			}
 		}
@@ -329,6 +337,11 @@ func (fc *FnCtx) loopHeader(h *ssa.BasicBlock, phiEntry map[*ssa.Phi]string) {
 		env := fc.envAt(fc.cur, hv)
 		env.oldState = fc.entry
 		env.visKey = fc.loopVisKey(h)
+		env.loopPre = preState
+		if fc.loopPre == nil {
+			fc.loopPre = map[*ssa.BasicBlock]*State{}
+		}
+		fc.loopPre[h] = preState
 		for _, inv := range ls.Invariants {
 			fc.assume(env.boolExpr(inv.Expr), "loop invariant "+inv.Src)
 		}
@@ -361,6 +374,7 @@ func (fc *FnCtx) loopStep(b, h *ssa.BasicBlock) {
 	if ls != nil {
 		env := fc.envAt(fc.cur, fc.headerVars(h, phiBack))
 		env.visKey = fc.loopVisKey(h)
+		env.loopPre = fc.loopPre[h]
 		for i, inv := range ls.Invariants {
 			t := env.boolExpr(inv.Expr)
 			fc.oblige("inv-step", fmt.Sprintf("L%d.%d", n, i+1), b.Instrs[len(b.Instrs)-1].Pos(), t, inv.Src, inv.Name)
